@@ -7,6 +7,7 @@ import (
 	"path/filepath"
 	"runtime"
 	"strings"
+	"time"
 
 	"github.com/avfs/avfs"
 )
@@ -57,6 +58,21 @@ func render(a *api, fn string, args []string) (out string) {
 	}
 
 	return "unsupported function " + fn
+}
+
+// renderTimeout is render in a goroutine that is given up after 20 s (a
+// replayed HANG finding must not hang the replay).
+func renderTimeout(a *api, fn string, args []string) string {
+	ch := make(chan string, 1)
+
+	go func() { ch <- render(a, fn, args) }()
+
+	select {
+	case r := <-ch:
+		return r
+	case <-time.After(20 * time.Second):
+		return "does not return (20s)"
+	}
 }
 
 type replayFile struct {
@@ -200,8 +216,8 @@ func (d *driver) replay(path string) int {
 	for _, e := range rf.Replay.Examples {
 		switch rf.Replay.Kind {
 		case "call":
-			want := render(&o.ref, rf.Replay.Func, e.Args)
-			got := render(&o.sut, rf.Replay.Func, e.Args)
+			want := renderTimeout(&o.ref, rf.Replay.Func, e.Args)
+			got := renderTimeout(&o.sut, rf.Replay.Func, e.Args)
 			fmt.Printf("%s %s(%s): reference %s, avfs %s\n", o.name, rf.Replay.Func, quoteArgs(e.Args), want, got)
 
 			if want != got {
